@@ -13,7 +13,7 @@ func init() {
 	register(&PropDoc{
 		ID:         "C17",
 		Modules:    []string{"sdk/log"},
-		NotDecided: "the truncate and dedup algorithms (string/index arithmetic); 'count + dropped = offered' as arithmetic; key order after arbitrary edit sequences.",
+		NotDecided: "the truncate algorithm beyond 'every kept character is counted', the dedup algorithm (index arithmetic); 'count + dropped = offered' as arithmetic; key order after arbitrary edit sequences.",
 		Fn:         c17,
 	})
 }
